@@ -536,18 +536,28 @@ Definition sf2q (x : sf) : option Q :=
       Some (if s then Qopp q else q)
   | _ => None
   end.
-(** |x - y| <= 2^-40 * |y|  (float-valued outputs against the exact definition) *)
-Definition q_close (x y : Q) : bool :=
-  Qle_bool (Qabs (x - y)) (Qabs y * (1 # 1099511627776))%Q.
-Definition f_close (x : sf) (y : Q) : bool :=
-  match sf2q x with Some q => q_close q y | None => false end.
-Definition zq_close (a : Z * sf) (b : Z * Q) : bool := Z.eqb (fst a) (fst b) && f_close (snd a) (snd b).
+(** |x - y| <= 2^-30 * (|y| + A)  (float-valued outputs against the exact definition; A = 0
+    except for the integral, a sum of terms of both signs) *)
+Definition q_close_abs (A x y : Q) : bool :=
+  Qle_bool (Qabs (x - y)) ((Qabs y + A) * (1 # 1073741824))%Q.
+Definition q_close := q_close_abs 0.
+Definition f_close_abs (A : Q) (x : sf) (y : Q) : bool :=
+  match sf2q x with Some q => q_close_abs A q y | None => false end.
+Definition zq_close_abs (A : Q) (a : Z * sf) (b : Z * Q) : bool :=
+  Z.eqb (fst a) (fst b) && f_close_abs A (snd a) (snd b).
+Definition zq_close := zq_close_abs 0.
 Fixpoint list_rel {A B} (r : A -> B -> bool) (a : list A) (b : list B) : bool :=
   match a, b with
   | [], [] => true
   | x :: a', y :: b' => r x y && list_rel r a' b'
   | _, _ => false
   end.
+Definition flt_ok_abs (A : Q) (impl : outs) (def : list (Z * Q)) : bool :=
+  match impl with OFlt l => list_rel (zq_close_abs A) l def | _ => false end.
+(** total absolute area of an integral's trapezoids *)
+Definition abs_area (unit : Z) (ps : list pt) : Q :=
+  let tot := sumZ (adj (fun a b => [(Z.abs (pt_v a) + Z.abs (pt_v b)) * Z.abs (pt_t b - pt_t a)]) ps) in
+  (inject_Z tot / inject_Z (Z.abs unit))%Q.
 Definition flt_ok (impl : outs) (def : list (Z * Q)) : bool :=
   match impl with OFlt l => list_rel zq_close l def | _ => false end.
 Definition int_ok (impl : outs) (def : list (Z * Z)) : bool :=
@@ -676,8 +686,8 @@ Definition oracle (k : kind) (ps : list pt) (impl : outs) : bool :=
   | KCumSum => int_ok impl (cumsum_def ps)
   | KElapsed u => int_ok impl (elapsed_def u ps)
   | KIntegral o =>
-      if io_interval o =? 0 then flt_ok impl (integral_def QX o ps)
-      else flt_ok impl (integral_windows_def o ps)
+      if io_interval o =? 0 then flt_ok_abs (abs_area (io_unit o) ps) impl (integral_def QX o ps)
+      else flt_ok_abs (abs_area (io_unit o) ps) impl (integral_windows_def o ps)
   | KPercentile p => ok_percentile p ps impl
   | KMedian => flt_ok impl (median_run QX ps)
   | KMean => flt_ok impl (mean_def ps)
